@@ -162,6 +162,7 @@ func NewEngine(p *Plan) *Engine {
 			e.M.Reg |= 1 << uint(k)
 		}
 	}
+	e.S.spawnOn = p.ListenerSpawn
 	if p.Listener == "restricted" && p.Profile != "C12" {
 		e.S.InstallRestrictedPrimary(Sub{S: p.ListenerS, C: p.ListenerC}, p.ListenerChaos)
 	} else if p.Listener != "none" && p.Listener != "" {
@@ -253,7 +254,16 @@ func (e *Engine) issue(op *COp, why string) (Result, bool, *Violation) {
 	if expectPanic {
 		statsBefore = e.statsDigest()
 	}
+	e.S.SpawnOK = len(e.Shadows) == 0 && len(e.M.Alive)+2 < e.P.EntityCap
 	res := e.S.Apply(op)
+	e.S.SpawnOK = false
+	if v := e.commitSpawned(op); v != nil {
+		return res, false, v
+	}
+	if e.S.DetachSeen > 0 {
+		e.St.Probes["listener-detached-itself-in-last-removal-notification"] += e.S.DetachSeen
+		e.S.DetachSeen = 0
+	}
 	if e.S.KeptSeen > 0 {
 		e.St.Probes["query-kept-open-beyond-removal-notification"] += e.S.KeptSeen
 		e.S.KeptSeen = 0
@@ -324,6 +334,30 @@ func (e *Engine) issue(op *COp, why string) (Result, bool, *Violation) {
 		return res, false, v
 	}
 	return res, true, nil
+}
+
+// commitSpawned enters the entities that the listener created inside this operation's notifications into the model.
+func (e *Engine) commitSpawned(op *COp) *Violation {
+	s := e.S
+	if s.SpawnTrouble != "" {
+		msg := s.SpawnTrouble
+		s.SpawnTrouble = ""
+		s.Spawned = s.Spawned[:0]
+		return e.viol("unexpected-panic", op, "%s %s: a creation inside one of its notifications (world unlocked) panicked: %s", op.Kind, op.Variant, msg)
+	}
+	for _, sp := range s.Spawned {
+		if v := e.checkNewHandle(sp.H, op); v != nil {
+			s.Spawned = s.Spawned[:0]
+			return v
+		}
+		me := e.M.addEntity(sp.H, sp.Set, sp.Target)
+		e.touched[sp.H] = true
+		e.logEnt(sp.H)
+		e.expEvents = append(e.expEvents, e.M.creationEvent(me))
+		e.St.Probes["entity-created-inside-notification"]++
+	}
+	s.Spawned = s.Spawned[:0]
+	return nil
 }
 
 // statsDigest condenses the public World.Stats() report (nodes, tables, capacities, entity pool).
